@@ -419,7 +419,64 @@ def r_proj_plus(cx):
                   "`+` is removed as a token prefix (%s %r)" % (tail, p) if ok else
                   "parse_proj removes `+` with %s(%r): also the plus signs inside parameter values (`x_0=5e+5`) are "
                   "removed, truncating the value" % (tail, p), cx.where(t["span"]))
+    # ... and in both places where a token can start inside the text: behind a blank and at the start of a line (a
+    # multi-line definition whose continuation lines start with `+step` in column 0)
+    ctxs = set()
+    for name in sorted(cx.f.lib["fns"]):
+        if not name.startswith(PARSE):
+            continue
+        f = cx.f.fn(name)
+        for bb, t in f.calls():
+            tail = (f.callee(t) or "").rsplit("::", 1)[-1]
+            a = f.arg_terms(bb)
+            if len(a) < 2:
+                continue
+            pat = mir.strip_refs(a[1])
+            if pat[0] != "const" or not isinstance(pat[2], tuple) or len(pat[2]) != 2 or "+" not in str(pat[2][1]):
+                continue
+            p = str(pat[2][1])
+            if tail in ("replace", "replacen") and p.index("+") > 0:
+                ctxs.add(p[p.index("+") - 1])
+            if tail in ("trim_start_matches", "strip_prefix", "trim_left_matches") and (f.innermost_loop(bb) is not None or "{closure" in name):
+                ctxs.add("line")
+    ok = " " in ctxs and ("\n" in ctxs or "line" in ctxs)
+    cx.ob("R-PROJ-PLUS", "contexts", ok,
+          "`+` is removed behind a blank and at the start of a line" if ok else
+          "parse_proj removes the `+` prefix only %s: in a multi-line definition whose lines start with `+` in column 0 "
+          "(`+proj=pipeline\\n+step +proj=utm ..`) the tokens keep their plus sign and the steps are not recognised" % (
+              "behind " + ", ".join(repr(c) for c in sorted(ctxs)) if ctxs else "at the start of the text"),
+          cx.where(cx.f.fn(PARSE).d["span"]))
     cx.count("R-PROJ-PLUS", "plus_patterns", n)
+
+
+@rule("R-PROJ-COMMENT", ["C17"])
+def r_proj_comment(cx):
+    """In PROJ text a `#` starts a comment wherever it stands - behind a blank, a tab, or attached to the last parameter.
+    Where parse_proj looks for the comment sign (split / find / split_once) the pattern is the bare `#`, not the sign with
+    some context (` #`), which would leave `+zone=32# remark` and tab-aligned comments in the text."""
+    n = 0
+    for name in sorted(cx.f.lib["fns"]):
+        if not name.startswith(PARSE):
+            continue
+        f = cx.f.fn(name)
+        for bb, t in f.calls():
+            tail = (f.callee(t) or "").rsplit("::", 1)[-1]
+            if tail not in ("split", "splitn", "split_once", "find", "split_terminator", "rsplit", "rfind", "contains", "starts_with"):
+                continue
+            a = f.arg_terms(bb)
+            if len(a) < 2:
+                continue
+            pat = mir.strip_refs(a[1])
+            if pat[0] != "const" or not isinstance(pat[2], tuple) or len(pat[2]) != 2 or "#" not in str(pat[2][1]):
+                continue
+            p = str(pat[2][1])
+            n += 1
+            cx.ob("R-PROJ-COMMENT", "%s/%s%d" % (name, tail, n - 1), p == "#",
+                  "the comment sign is looked for as the bare `#`" if p == "#" else
+                  "parse_proj looks for comments with %s(%r): a `#` that is not preceded by exactly that context (after a tab, "
+                  "or attached to a value) does not start a comment, its words become parameters of the step" % (tail, p),
+                  cx.where(t["span"]))
+    cx.count("R-PROJ-COMMENT", "comment_patterns", n)
 
 
 @rule("R-PROJ-TIDY-INDEPENDENT", ["C17"])
